@@ -339,8 +339,21 @@ async fn run_case(addr: SocketAddr, certs: &Certs, t: &[&str]) -> anyhow::Result
             let same = match conns.last() { Some(c) => probe_raw_on(c, &ns3, &tp3).await, None => "ok".into() };
             let (ns4, tp4) = fresh();
             let flooder = probe_pubsub_on(&client, &ns4, &tp4).await;
+            // … and for many other topic names at once (whatever a name hashes to), from one more connection
+            let wide = {
+                let conn3 = raw(addr, certs).await?;
+                let mut hs = vec![];
+                for _ in 0..40 {
+                    let (nsx, tpx) = fresh();
+                    let c = conn3.clone();
+                    hs.push(tokio::spawn(async move { probe_raw_on(&c, &nsx, &tpx).await }));
+                }
+                let mut bad = 0;
+                for h in hs { if h.await.map(|r| r != "ok").unwrap_or(true) { bad += 1; } }
+                if bad == 0 { "ok".to_string() } else { format!("FAILED:{bad}_of_40_topics") }
+            };
             drop(queued); drop(stalled); drop(conns);
-            Ok(format!("{a} probe={probe} queued-peer={same} blocked-publisher={flooder}"))
+            Ok(format!("{a} probe={probe} queued-peer={same} blocked-publisher={flooder} other-names={wide}"))
         }
         other => anyhow::bail!("bad registry case {other}"),
     }
@@ -378,6 +391,7 @@ pub fn run(cfg: &Cfg) {
         for l in [max - 20, max - 9, max - 8, max - 1, max, max + 1] { cases.push(format!("reg big RP {l}")); }
         for l in [max - 100, max - 28, max - 27, max - 9, max, max + 1] { cases.push(format!("reg big RQ {l}")); }
         cases.push("reg stall 130".into());
+        cases.push("reg stall 420".into());
         // isolation between names that are close to each other: the same text with the separator elsewhere, swapped
         // parts, case, '-' / '_', one extra character, and the same name twice (control: shared)
         let k = TOPIC.fetch_add(1, Ordering::SeqCst);
@@ -412,10 +426,10 @@ pub fn run(cfg: &Cfg) {
             Ok(Err(e)) => (format!("ERROR {}", format!("{e:?}").replace('\n', " ").chars().take(160).collect::<String>()), Err(format!("{e}"))),
             Ok(Ok(line)) => {
                 let mut m = Ok(());
-                let probe_ok = line.split(' ').filter(|x| x.contains('=') && ["probe", "queued-peer", "blocked-publisher"].contains(&x.split('=').next().unwrap())).all(|x| x.ends_with("=ok"));
+                let probe_ok = line.split(' ').filter(|x| x.contains('=') && ["probe", "queued-peer", "blocked-publisher", "other-names"].contains(&x.split('=').next().unwrap())).all(|x| x.ends_with("=ok"));
                 if !probe_ok { dead = line.contains("hang"); m = Err(format!("C11/C17: after `{}` well-behaved clients are no longer served: {line}", t[1..].join(" ").chars().take(80).collect::<String>())); }
                 if m.is_ok() {
-                    let answers: Vec<&str> = line.split(' ').filter(|x| !x.starts_with("probe=") && !x.starts_with("queued-peer=") && !x.starts_with("blocked-publisher=") && !x.starts_with("a=") && !x.starts_with("b=")).collect();
+                    let answers: Vec<&str> = line.split(' ').filter(|x| !x.starts_with("probe=") && !x.starts_with("queued-peer=") && !x.starts_with("blocked-publisher=") && !x.starts_with("other-names=") && !x.starts_with("a=") && !x.starts_with("b=")).collect();
                     for a in &answers {
                         if *a == "timeout" { m = Err(format!("C11: a stream was neither served nor refused nor closed: {line}")); }
                     }
